@@ -60,3 +60,12 @@ Example positive_rate_needed :
   render_ok r_fr0 m_fr0 = false /\
   match read_ttml (render_tree r_fr0 m_fr0) with Ok d => map ti_st (td_items d) = [0%Z] | _ => False end.
 Proof. split; vm_compute; reflexivity. Qed.
+
+(* 6. the bound on the instant (2^49 ns) cannot simply be dropped: "9007199254.740993s" means the whole number
+      9 007 199 254 740 993 000 ns but two binary64 roundings return ...992 000 (the harness compares the library with
+      the model on this very string: group ttml.time.malformed) *)
+Definition e_big : texpr := TOffset [57;48;48;55;49;57;57;50;53;52] [55;52;48;57;57;51] Ms.
+Example instant_bound_needed :
+  texpr_okb 0 0 e_big = false /\ ttml_time (texpr_str e_big) 0 0 = Some 9007199254740992000%Z /\
+  texpr_exact 0 0 e_big = (9007199254740993000000000, 1000000)%Z.
+Proof. repeat split; vm_compute; reflexivity. Qed.
